@@ -281,6 +281,23 @@ func snapshot(v interface{}) string {
 	return b.String()
 }
 
+// operations on a shared statement of any kind
+var stmtOps = []struct {
+	name string
+	fn   func(st influxql.Statement) string
+}{
+	{"Statement.String", func(st influxql.Statement) string { return st.String() }},
+	{"Statement.RequiredPrivileges", func(st influxql.Statement) string {
+		ps, err := st.RequiredPrivileges()
+		return fmt.Sprint(ps, err)
+	}},
+	{"WalkFunc(statement)", func(st influxql.Statement) string {
+		n := 0
+		influxql.WalkFunc(st, func(influxql.Node) { n++ })
+		return fmt.Sprint(n)
+	}},
+}
+
 type failure struct {
 	Kind   string `json:"kind"`
 	Op     string `json:"op"`
@@ -321,6 +338,17 @@ func main() {
 			}
 		}
 	}
+	// shared statements of the other kinds
+	var sharedStmts []influxql.Statement
+	var sharedStmtText []string
+	for _, t := range texts {
+		if st, err := influxql.ParseStatement(t); err == nil {
+			if _, ok := st.(*influxql.SelectStatement); !ok && len(sharedStmts) < 60 {
+				sharedStmts = append(sharedStmts, st)
+				sharedStmtText = append(sharedStmtText, t)
+			}
+		}
+	}
 	var fails []failure
 	var mu sync.Mutex
 	addFail := func(fl failure) {
@@ -353,6 +381,21 @@ func main() {
 			}
 		}
 	}
+	beforeStmt := make([]string, len(sharedStmts))
+	for i, st := range sharedStmts {
+		beforeStmt[i] = snapshot(st)
+	}
+	aloneStmt := make([][]string, len(stmtOps))
+	for k, op := range stmtOps {
+		aloneStmt[k] = make([]string, len(sharedStmts))
+		for i, st := range sharedStmts {
+			aloneStmt[k][i] = safe(func() string { return op.fn(st) })
+			if s := snapshot(st); s != beforeStmt[i] {
+				addFail(failure{Kind: "read-only operation changed the statement (alone)", Op: op.name, Input: sharedStmtText[i]})
+				beforeStmt[i] = s
+			}
+		}
+	}
 	// phase 2: all at once
 	total := 0
 	rounds := []int{1, 2, runtime.NumCPU()}
@@ -367,7 +410,13 @@ func main() {
 				defer wg.Done()
 				<-start
 				for it := 0; it < *iters; it++ {
-					if r.intn(3) == 0 && len(shared) > 0 {
+					if r.intn(6) == 0 && len(sharedStmts) > 0 {
+						k, i := r.intn(len(stmtOps)), r.intn(len(sharedStmts))
+						got := safe(func() string { return stmtOps[k].fn(sharedStmts[i]) })
+						if got != aloneStmt[k][i] {
+							addFail(failure{"result differs from the same call made alone", stmtOps[k].name, sharedStmtText[i], aloneStmt[k][i], got})
+						}
+					} else if r.intn(3) == 0 && len(shared) > 0 {
 						k, i := r.intn(len(astOps)), r.intn(len(shared))
 						got := safe(func() string { return astOps[k].fn(shared[i]) })
 						if got != aloneAst[k][i] {
@@ -395,6 +444,11 @@ func main() {
 	}
 	// phase 3: the shared ASTs are what they were
 	if !*control {
+		for i, st := range sharedStmts {
+			if snapshot(st) != beforeStmt[i] {
+				addFail(failure{Kind: "shared statement changed during concurrent read-only use", Input: sharedStmtText[i]})
+			}
+		}
 		for i, q := range shared {
 			if snapshot(q) != before[i] {
 				addFail(failure{Kind: "shared AST changed during concurrent read-only use", Input: sharedText[i]})
